@@ -159,7 +159,20 @@ func (e *ErrEngine) base(v ssa.Value, at *ssa.BasicBlock, env errEnv, depth int,
 		defer delete(seen, x)
 		var c ErrClass
 		for i, ed := range x.Edges {
-			c |= e.classify(ed, x.Block().Preds[i], env, depth, seen)
+			pred := x.Block().Preds[i]
+			ec := e.classify(ed, pred, env, depth, seen)
+			// the edge pred -> phi block may itself be the outcome of a nil test on the incoming value
+			if iff, ok := pred.Instrs[len(pred.Instrs)-1].(*ssa.If); ok && pred.Succs[0] != pred.Succs[1] {
+				if v, nonNilOnTrue, ok := NilTest(iff.Cond); ok && v == ed {
+					onTrue := pred.Succs[0] == x.Block()
+					if onTrue == nonNilOnTrue {
+						ec &^= CNil
+					} else {
+						ec &= CNil
+					}
+				}
+			}
+			c |= ec
 		}
 		return c
 	case *ssa.UnOp:
